@@ -213,6 +213,8 @@ var c11Splices = []splice{
 	{name: "illegal-byte-utf8-continuation", tok: "\x80"},
 	{name: "illegal-byte-question", tok: "?"},
 	{name: "illegal-single-ampersand", tok: "&"},
+	{name: "illegal-nonascii-2byte", tok: "é"},
+	{name: "illegal-nonascii-3byte", tok: "日"},
 	{name: "unmatched-rparen", tok: ")"},
 	{name: "unmatched-rsquare", tok: "]"},
 	{name: "unmatched-rcurly", tok: "}"},
